@@ -74,6 +74,33 @@ def routing_script(r, idx, ops):
     return {"cfg": cfg, "steps": steps, "tag": {"family": "routing", "idx": idx, "ops": list(ops), "victims": [1]}}
 
 
+def routing_siblings(r, idx):
+    """Several connections from ONE client endpoint to the same server: one of them ends (or just moves
+    on to another server-issued ID), later the server loses its state of a sibling and answers it with a
+    stateless reset - which belongs to the sibling, whatever was removed for the one that ended."""
+    cfg = base_cfg(r, clients=1)
+    cfg["server_cid_len"] = r.choice([8, 8, 4, 20])
+    cfg["client_cid_len"] = r.choice([8, 8, 4, 20, 0])
+    cfg["cid_gen"] = r.choice(["det", "random"])
+    t = {"idle_ms": 20000}
+    cfg["server"] = dict(t)
+    cfg["client"] = dict(t)
+    k = r.choice([2, 3])
+    steps = []
+    for c in range(k):
+        steps.append({"do": "connect", "n": 1})
+        steps.append({"do": "run", "us": r.choice([0, 30000, 100000])})
+    steps.append({"do": "run", "us": 300000})
+    gone = r.randrange(k)
+    kept = r.choice([c for c in range(k) if c != gone])
+    who = r.choice([1, 1, 0])
+    steps.append({"do": "op", "n": who, "c": gone, "op": {"op": "close", "code": 7, "reason": "c"}})
+    steps.append({"do": "run", "us": r.choice([200000, 2000000, 5000000])})   # draining or long gone
+    steps.append({"do": "reset_like", "to": 1, "c": kept, "token": "exact", "len": r.choice([40, 100, 1200])})
+    steps.append({"do": "run", "us": 1000000})
+    return {"cfg": cfg, "steps": steps, "tag": {"family": "routing-siblings", "idx": idx, "ops": [], "victims": [1]}}
+
+
 def routing_random(r, idx):
     ops = [r.choice(["close_c", "close_s", "reconnect", "migrate", "err", "replay", "garbage", "wait"])
            for _ in range(r.choice([1, 2, 6, 8]))]
